@@ -350,6 +350,14 @@ impl Context {
                 Phase::Drop => unreachable!(),
             }
 
+            // Never yield between sweeping the last object and finishing the cycle: finishing
+            // costs no work, and if the sweep has just freed the last allocation the debt reads
+            // zero (an empty arena has no debt), which would otherwise leave the collector in
+            // `Phase::Sweep` with nothing left to sweep instead of going back to sleep.
+            if cx.phase == Phase::Sweep && cx.sweep.is_none() {
+                continue;
+            }
+
             if run_until == RunUntil::PayDebt && !(cx.metrics.allocation_debt() > 0.0) {
                 break;
             }
